@@ -12,15 +12,19 @@ from vt import core
 from vt.gen import c06_api
 from vt.harness import c05_gen as G
 from vt.props import c05
+from vt.props import c06_nesting
 
 LEVEL = "proof"
 
 
 def generate(src):
-    return c06_api.generate(src)
+    a = c06_api.generate(src)
+    a["nesting"] = c06_nesting.generate(src)      # Gen_nesting.v: forbidden_parents / outside_parents_invisible + code-shape checks
+    return a
 
 
 def build():
+    c06_nesting.build()
     return c05.build()
 
 
@@ -36,7 +40,11 @@ def check(run):
     run.trusted = c05.TRUSTED + ["vt/gen/c06_api.py (Python ast): which attribute reads count as obligations (Load/Del on non-module "
                                  "receivers; getattr/hasattr with literal names are guarded reads and are not), which sources define names",
                                  "the fixed allow-list of builtin-type attributes in vt/gen/c06_api.py",
-                                 "CPU-time limit (ITIMER_VIRTUAL; 5 s quick / 10 s thorough per pass call) as the meaning of 'bounded time'"]
+                                 "CPU-time limit (ITIMER_VIRTUAL; 5 s quick / 10 s thorough per pass call) as the meaning of 'bounded time'",
+                                 "vt/gen/c06_nesting.py (Python ast) reading of TreeCleaner.__init__'s tables and of the shape of "
+                                 "_mark_nodes/_filter_tree/_fix_nesting",
+                                 "OCaml extraction of fix_nesting + ocaml/c06n/driver.ml parser/printer",
+                                 "vt/harness/c06_nesting.py construction of advtree objects by class code"]
     run.assumptions = ["name-based attribute check: a name defined by ANY node class / mixin counts as defined for every receiver",
                        "C06_breaking_returns_terminates_real: is_block_node and 'display text is blank' are abstract; BreakingReturns are "
                        "assumed childless (a BreakingReturn with a block descendant makes the model loop spin: C06_cand_detached_refuted)",
@@ -59,7 +67,14 @@ def check(run):
                        not miss, "; ".join("%s (%s)" % m for m in miss))
         nm = [m for m in a["cleaner_methods"] if m not in a["tc_methods"]]
         run.obligation("cleaner_methods (%d) are methods of TreeCleaner" % len(a["cleaner_methods"]), not nm, ", ".join(nm))
-    exe = build()
+        run.obligation("fix_nesting tables + code shape regenerated from treecleaner.py (Gen_nesting.v)", a.get("nesting") is not None,
+                       str(a.get("nesting")))
+    exe = c05.build()
+    try:                                       # a broken translator / proof must not keep the search from running
+        c06_nesting.build()
+        c06_nesting.nesting_tie(run, src)      # extracted fix_nesting vs the real TreeCleaner.fix_nesting on random class skeletons
+    except Exception as e:
+        run.obligation("fix_nesting differential built and run", False, "%s: %s" % (type(e).__name__, str(e)[:300]))
     c05.monitor(run, "c06", [1, 2], src, exe)
     run.coverage["exhaustive"] = False
 
